@@ -99,6 +99,8 @@ type Op struct {
 	RetVal string `json:"retval,omitempty"`
 	// RetCap: ReturnConsumedCapacity of the request ("TOTAL", "INDEXES", "NONE"): bookkeeping the caller asks for,
 	// it changes neither what the request does nor whether it succeeds
+	// SharePtrs (SDK v1): equal values of one request map are ONE *AttributeValue used at several places
+	SharePtrs bool `json:"shareptrs,omitempty"`
 	RetCap string `json:"retcap,omitempty"`
 	// Expected: the legacy "Expected" parameter of a write in its short form (attribute = value)
 	Expected val.Item `json:"expected,omitempty"`
